@@ -110,6 +110,8 @@ func credentialOfParam(c *Ctx, fn *ssa.Function, idx int, depth int) string {
 }
 
 func runC10(c *Ctx, r *Report) {
+	r.Rule("C10/no-double-close", "a driver Open does not close the channel again on the failing edge of Channel.Open (which closed it already; Close is not idempotent)", 2)
+	checkNoDoubleChannelClose(c, r, "C10/no-double-close")
 	r.Rule("C10/error-classes", "each failure site named by the property wraps the sentinel the property names (timeout / auth / connection / privilege / NETCONF / operation / platform error)", 5)
 	checkErrorClasses(c, r, "C10")
 	r.Rule("C10/credential-prompt", "each credential is written only on the true edge of a match of its own prompt pattern, redacted", 4)
